@@ -218,6 +218,13 @@ theorem take_zero (s : List α) : s.take 0 = [] := List.take_zero
 theorem has_take (s : List α) (n : Nat) (x : α) : n ≤ s.length → x ∈ s.take n → x ∈ s :=
   fun _ h => List.mem_of_mem_take h
 
+-- ax([s, n, j], 0 <= j < n <= Len(s)  ->  Has(Take(s, n), At(s, j)))
+theorem has_take_at (s : List α) (n j : Nat) : j < n → n ≤ s.length → At s j ∈ s.take n := by
+  intro h1 h2
+  have hl : j < (s.take n).length := by simp; omega
+  have e : At (s.take n) j = At s j := at_take s n j h1 h2
+  rw [← e]; exact at_has (s.take n) j hl
+
 -- ax([s, n, x], 0 <= n <= Len(s)  /\  Has(Drop(s, n), x)  ->  Has(s, x))
 theorem has_drop (s : List α) (n : Nat) (x : α) : n ≤ s.length → x ∈ s.drop n → x ∈ s :=
   fun _ h => List.mem_of_mem_drop h
@@ -893,6 +900,11 @@ theorem take_zero (s : List α) : Take s 0 = [] := by ints; simp
 -- ax([s, n, x], 0 <= n  /\  n <= Len(s)  /\  Has(Take(s, n), x)  ->  Has(s, x))
 theorem has_take (s : List α) (n : Int) (x : α) : 0 ≤ n ∧ n ≤ Len s ∧ x ∈ Take s n → x ∈ s := by
   rintro ⟨h0, h1, h2⟩; ints; exact List.mem_of_mem_take h2
+
+-- ax([s, n, j], 0 <= j  /\  j < n  /\  n <= Len(s)  ->  Has(Take(s, n), At(s, j)))
+theorem has_take_at (s : List α) (n j : Int) : 0 ≤ j ∧ j < n ∧ n ≤ Len s → AtI s j ∈ Take s n := by
+  rintro ⟨h0, h1, h2⟩; ints
+  exact PreludeSound.has_take_at s n.toNat j.toNat (by omega) (by omega)
 
 -- ax([s, n, x], 0 <= n  /\  n <= Len(s)  /\  Has(Drop(s, n), x)  ->  Has(s, x))
 theorem has_drop (s : List α) (n : Int) (x : α) : 0 ≤ n ∧ n ≤ Len s ∧ x ∈ Drop s n → x ∈ s := by
